@@ -24,16 +24,30 @@ CXXFLAGS = [
 TSAN_FLAGS = ["-std=c++17", "-O1", "-g1", "-ffp-contract=off", "-fsanitize=thread", "-UNDEBUG", "-D" + GUARD, "-pthread"]
 
 
+_HELD = {}
+
+
 @contextlib.contextmanager
 def build_lock(name):
     """Serialise build steps between check processes that run at the same time (they share
-    lean/.lake, Generated.lean and the harness cache)."""
+    lean/.lake, Generated.lean and the harness cache).  Re-entrant within one process, so that
+    translate -> lake build -> axiom audit can be held as ONE critical section (another check
+    working on a different source tree must not regenerate the model in between)."""
     os.makedirs(BUILD, exist_ok=True)
-    with open(os.path.join(BUILD, ".lock_" + name), "w") as lf:
-        fcntl.flock(lf, fcntl.LOCK_EX)
+    if name in _HELD:
+        _HELD[name][1] += 1
         try:
             yield
         finally:
+            _HELD[name][1] -= 1
+        return
+    with open(os.path.join(BUILD, ".lock_" + name), "w") as lf:
+        fcntl.flock(lf, fcntl.LOCK_EX)
+        _HELD[name] = [lf, 1]
+        try:
+            yield
+        finally:
+            del _HELD[name]
             fcntl.flock(lf, fcntl.LOCK_UN)
 
 
@@ -78,8 +92,24 @@ def lake_build(targets, timeout=3000):
     return r.returncode == 0, out
 
 
+_PRIVATE_MODEL = [None]
+
+
 def model_exe():
-    return os.path.join(LEAN, ".lake", "build", "bin", "fsmodel")
+    """the compiled model driver; after `snapshot_model_exe` the private copy taken inside the
+    build critical section (a concurrent check on another source tree may rebuild the shared one)"""
+    return _PRIVATE_MODEL[0] or os.path.join(LEAN, ".lake", "build", "bin", "fsmodel")
+
+
+def snapshot_model_exe():
+    import atexit, shutil
+    src = os.path.join(LEAN, ".lake", "build", "bin", "fsmodel")
+    if not os.path.exists(src):
+        return
+    dst = os.path.join(BUILD, "fsmodel_run_%d" % os.getpid())
+    shutil.copy2(src, dst)
+    _PRIVATE_MODEL[0] = dst
+    atexit.register(lambda: os.path.exists(dst) and os.unlink(dst))
 
 
 def _compile_many(jobs):
